@@ -217,3 +217,23 @@ Qed.
 
 Theorem dq_reach s : reach fixed s -> dq_inv s.
 Proof. induction 1; [repeat split; constructor|eapply dq_step; eauto]. Qed.
+
+(* items taken out of the heap by Dequeue were never started *)
+Lemma removed_unstarted_step s l s' :
+  dq_inv s -> Forall unstarted (removed s) -> step fixed s l = Some s' -> Forall unstarted (removed s').
+Proof.
+  intros (_ & _ & H3) Hr H. step_inv H; unset;
+    repeat match goal with D : decide _ _ _ = Some _ |- _ => apply decide_frame in D; destruct D as (? & ->); unset end;
+    try assumption.
+  apply Forall_app. split; [exact Hr|].
+  destruct (0 <=? ipos i)%Z.
+  - destruct (h_remove wlt set_pos (heap s) (Z.to_nat (ipos i))) as [[x h']|] eqn:Er; [|discriminate].
+    injection Heqo0 as <- <-. apply w_remove_perm in Er.
+    assert (Hf : Forall unstarted (x :: h')) by (eapply forall_key_perm; [apply Permutation_sym, Er|exact H3]).
+    inversion Hf; subst. constructor; [assumption|constructor].
+  - injection Heqo0 as <- <-. constructor.
+Qed.
+Theorem removed_unstarted s : reach fixed s -> Forall unstarted (removed s).
+Proof.
+  induction 1 as [|s l s' R IH H]; [constructor|]. eapply removed_unstarted_step; eauto. apply dq_reach, R.
+Qed.
